@@ -362,7 +362,9 @@ def audit_hooks(env):
     log = subprocess.run(["git", "-C", fw.REPO, "log", "--format=%H", "--grep", "^verif hooks:"], stdout=subprocess.PIPE, text=True).stdout.split()
     removed = 0
     for c in log:
-        d = subprocess.run(["git", "-C", fw.REPO, "show", "--format=", "--unified=0", c], stdout=subprocess.PIPE, text=True).stdout
+        # lines of files that the hooks themselves created (src/verif.rs) may be rewritten by later hook commits;
+        # "add only" is about the upstream code
+        d = subprocess.run(["git", "-C", fw.REPO, "show", "--format=", "--unified=0", c, "--", ".", ":(exclude)src/verif.rs"], stdout=subprocess.PIPE, text=True).stdout
         removed += len([l for l in d.splitlines() if l.startswith("-") and not l.startswith("---")])
     env.extra_cov["hook_commits"] = len(log)
     env.extra_cov["hook_commits_removed_lines"] = removed
